@@ -1,5 +1,5 @@
 //@unit node_restore_channels
-//@props C18 C11 C15
+//@props C18 C11 C15 C05
 // Contract on the channel part of a restart: Node::new_from_persistence (vls-core/src/node.rs).  For every persisted
 // channel entry the channel registered again carries keys derived from the SAME id as at creation (its initial id
 // `id0`, the key of the persisted entry), the persisted enforcement state and setup verbatim, and both of its ids.
@@ -135,9 +135,13 @@ impl VxValidatorFactory {
 impl VxValidator {
     #[verifier::external_body] pub fn minimum_initial_balance(&self, to_holder_msat: u64) -> u64 { unimplemented!() }
     // SimpleValidator::validate_setup_channel is under contract in unit sv_setup (C05); here only its call matters
+    // (`setup_validated` is an uninterpreted call marker: it can only be established by this call returning Ok)
     #[verifier::external_body]
-    pub fn validate_setup_channel(&self, w: &VxNode, setup: &ChannelSetup, path: &DerivationPath) -> Result<(), ValidationError> { unimplemented!() }
+    pub fn validate_setup_channel(&self, w: &VxNode, setup: &ChannelSetup, path: &DerivationPath) -> (r: Result<(), ValidationError>)
+        ensures r.is_ok() ==> setup_validated(*setup, *path)
+    { unimplemented!() }
 }
+pub uninterp spec fn setup_validated(setup: ChannelSetup, path: DerivationPath) -> bool;
 impl EnforcementState {
     #[verifier::external_body] pub fn new(initial_holder_value: u64) -> EnforcementState { unimplemented!() }
 }
@@ -278,13 +282,17 @@ impl VxNode {
 //@sub /Arc::downgrade\(arc_self\)/ => arc_self.vx_downgrade()
 //@end
 
-//@fn vls-core/src/node.rs :: impl Node :: setup_channel props=C18,C15 optclosures
+//@fn vls-core/src/node.rs :: impl Node :: setup_channel props=C18,C15,C05 optclosures
     requires setup.channel_value_sat <= 0x40_0000_0000_0000,     // input range: `channel_value_sat * 1000` (msat) does not wrap
     ensures
         // the ready channel carries the stub's six secrets (the ones derived from id0 at creation), both ids and the setup
         r.is_ok() && self.channels().contains_key(channel_id0) && self.channels()[channel_id0]@ is Stub ==>
             ldk_secrets(r->Ok_0.keys) == ldk_secrets(self.channels()[channel_id0]@->Stub_0.keys)
             && r->Ok_0.id0 == channel_id0 && r->Ok_0.id == opt_channel_id && r->Ok_0.setup == setup,              //[C18.setup.keeps-stub-secrets] [C15.setup.keeps-both-ids]
+        // C05: a stub becomes a usable channel only with a setup that passed validate_setup_channel (commitment type,
+        // contest delays, shutdown script: unit sv_setup), for exactly this setup and shutdown key path
+        r.is_ok() && self.channels().contains_key(channel_id0) && self.channels()[channel_id0]@ is Stub ==>
+            setup_validated(setup, *holder_shutdown_key_path),                                                     //[C05.setup.validated-before-ready]
         // an already ready channel is handed back as it is (same setup required)
         r.is_ok() && self.channels().contains_key(channel_id0) && self.channels()[channel_id0]@ is Ready ==>
             r->Ok_0 == self.channels()[channel_id0]@->Ready_0,                                                     //[C18.setup.ready-channel-untouched]
